@@ -23,7 +23,11 @@ pub fn prop() -> Prop {
                top-level kind (first difference at depth >= 1, or in length only, or between numbers of \
                different representation, or equal documents with different number encodings).",
         assumptions: &["cmpmodel.rs doc_cmp (written from the statement) is the documented order"],
-        subs: vec![Sub { name: "triples", run, replay: |j| replay_with::<Case>(j, check) }],
+        subs: vec![
+            Sub { name: "triples", run, replay: |j| replay_with::<Case>(j, check) },
+            // documents nested 10-100 levels deep against small mutations of themselves
+            Sub { name: "deep", run: run_deep, replay: |j| replay_with::<Case>(j, check) },
+        ],
     }
 }
 
@@ -165,4 +169,14 @@ fn run(ctx: &mut Ctx) {
     let p = ctx.tier.pick(TreeParams::quick(), TreeParams::thorough()).with_big(2);
     let strat = (arb_triple(p), vec(any::<u16>(), 1..5)).prop_map(|((a, b, c), sels)| Case { a, b, c, sels });
     run_strategy(ctx, "C04", "triples", cases, strat, check);
+}
+
+
+fn run_deep(ctx: &mut Ctx) {
+    let cases = ctx.share(ctx.tier.pick(20_000, 300_000));
+    let strat = (super::c14::arb_deep_pair(), vec(arb_mutation(), 1..3), vec(any::<u16>(), 1..5)).prop_map(|((a, b), m, sels)| {
+        let c = apply_mutations(&b, &m, MutKind::Any);
+        Case { a, b, c, sels }
+    });
+    run_strategy(ctx, "C04", "deep", cases, strat, check);
 }
